@@ -388,16 +388,40 @@ def cidr(cfg, crate, I, rep):
     custom_ok = False
     if isinstance(v, PhiV):
         from interp import flatten_phi
-        for c, x in flatten_phi(v):     # (a match on constant patterns and an if / else-if chain are the same table)
+        import re as _re3
+        custom_ok = True
+        n_custom = 0
+        for c, x in flatten_phi(v):     # (a match on constant patterns, an if / else-if chain, nested slice patterns: one table)
             xs = core(x)
             name = (xs.variant or "").split("::")[-1] if hasattr(xs, "variant") else None
-            pos = [a for a in F.atoms(c) if a[0] == "eq" and F.evalf(c, {b: (b == a) for b in F.atoms(c)})]
+            ats_ = F.atoms(c)
+            if len(ats_) > 14:
+                pos = [a for a in ats_ if a[0] == "eq" and F.evalf(c, {b: (b == a) for b in ats_})]
+            else:
+                pos = [a for a in ats_ if a[0] == "eq" and not F.counterexamples(c, ("atom", a), "implies")]
             if name == "CustomDnType":
-                custom_ok = places(xs) == {"slice"} and not pos
-            elif len(pos) == 1:
-                cname = [s_ for s_ in pos[0][1:] if isinstance(s_, str) and s_.startswith("oid::")]
-                if cname:
-                    inv[name] = I3.concrete(I3.const_value(cname[0]))
+                n_custom += 1
+                custom_ok = custom_ok and places(xs) == {"slice"}
+                continue
+            oid_ = None
+            cname = [s_ for a in pos for s_ in a[1:] if isinstance(s_, str) and s_.startswith("oid::")]
+            if len(cname) == 1 and len(pos) == 1:
+                oid_ = I3.concrete(I3.const_value(cname[0]))
+            else:
+                ln_, el_ = None, {}
+                for a in pos:
+                    l_, r_ = str(a[1]), str(a[2])
+                    if r_.isdigit() and l_.endswith("len(slice)"):
+                        ln_ = int(r_)
+                    elif r_.isdigit() and _re3.fullmatch(r"slice\[(\d+)\]", l_):
+                        el_[int(_re3.fullmatch(r"slice\[(\d+)\]", l_).group(1))] = int(r_)
+                if ln_ is not None and sorted(el_) == list(range(ln_)) and len(pos) == ln_ + 1:
+                    oid_ = [el_[i_] for i_ in range(ln_)]
+            if name is None or oid_ is None or name in inv:
+                inv[name or "?"] = "alternative %s: the accepted OID is not determined by its condition (%s)" % (name, F.show(c)[:120])
+            else:
+                inv[name] = oid_
+        custom_ok = custom_ok and n_custom >= 1
     rep.ob("C02.tables", "%s|%s" % (cfg, fn), inv == DN_OIDS and custom_ok, "from_oid is the inverse of to_oid (each registered OID maps to its attribute type; anything else becomes CustomDnType(oid))", expected=DN_OIDS, found=inv)
     fn = "certificate::CidrSubnet::to_bytes"
     rep.fn(fn)
